@@ -929,6 +929,10 @@ func (v *verdict) tags(e ast.Expr, has map[string]bool) {
 			}
 		case *ast.Ident:
 			if c, ok := v.info.Uses[x].(*types.Const); ok {
+				if cv := c.Val(); cv != nil && (cv.Kind() == constant.Int || cv.Kind() == constant.Float || cv.Kind() == constant.Complex) &&
+					constant.Sign(constant.Real(constant.ToComplex(cv))) < 0 {
+					has["neg"] = true // a named constant with a negative value
+				}
 				if b, ok := c.Type().(*types.Basic); ok {
 					if b.Info()&types.IsUntyped == 0 {
 						has["typed-leaf"] = true
